@@ -165,7 +165,7 @@ class CSSVariablesDeclaration(cssutils.util._NewBase):
                     if nname in newvars:
                         # replace var with same name
                         for i, it in enumerate(newseq):
-                            if normalize(it.value[0]) == nname:
+                            if 'var' == it.type and normalize(it.value[0]) == nname:
                                 newseq.replace(
                                     i,
                                     (nameitem.value, item.value),
@@ -244,17 +244,18 @@ class CSSVariablesDeclaration(cssutils.util._NewBase):
             - :exc:`~xml.dom.NoModificationAllowedErr`:
               Raised if this declaration is readonly is readonly.
         """
-        normalname = variableName
+        normalname = normalize(variableName)
         try:
             r = self._vars[normalname]
         except KeyError:
             return ''
         else:
             self.seq._readonly = False
-            if normalname in self._vars:
-                for i, x in enumerate(self.seq):
-                    if x.value[0] == variableName:
-                        del self.seq[i]
+            for i, x in enumerate(self.seq):
+                # seq keeps the literal name (and comments)
+                if 'var' == x.type and normalize(x.value[0]) == normalname:
+                    del self.seq[i]
+                    break
             self.seq._readonly = True
             del self._vars[normalname]
 
@@ -301,7 +302,8 @@ class CSSVariablesDeclaration(cssutils.util._NewBase):
 
                 if variableName in self._vars:
                     for i, x in enumerate(self.seq):
-                        if x.value[0] == variableName:
+                        # seq keeps the literal name (and comments)
+                        if 'var' == x.type and normalize(x.value[0]) == variableName:
                             self.seq.replace(
                                 i, [variableName, v], x.type, x.line, x.col
                             )
